@@ -16,6 +16,7 @@ import (
 
 	"github.com/criyle/go-sandbox/container"
 	"github.com/criyle/go-sandbox/pkg/forkexec"
+	"github.com/criyle/go-sandbox/pkg/mount"
 	"github.com/criyle/go-sandbox/ptracer"
 	"github.com/criyle/go-sandbox/runner"
 	"github.com/criyle/go-sandbox/zverif/vcore"
@@ -67,10 +68,19 @@ func procTreeScript(c *vcore.Ctx, allowSetsid bool) []string {
 		s = append(s, "ignore")
 	}
 	n := src.Int(3, "nchildren")
+	// members that hold memory take their time to die after the kill: whoever collects them must wait for them
+	heavy := src.Bool(1, 3, "heavy_members")
+	if heavy {
+		n = 2 + src.Int(4, "nheavy")
+	}
 	for i := 0; i < n; i++ {
 		kindOf := src.Pick("child", "pause", "ignore_pause", "grandchild", "daemon", "thread")
 		if kindOf == "daemon" && !allowSetsid {
 			kindOf = "grandchild"
+		}
+		if heavy {
+			s = append(s, "fork", "3", "ignore", "alloc", "96", "pause")
+			continue
 		}
 		switch kindOf {
 		case "pause":
@@ -103,7 +113,11 @@ func c11KRun(c *vcore.Ctx) *vcore.Violation {
 	c.Event("cancel@" + instant)
 	rv := newRvPipes()
 	defer rv.closeAll()
-	ctx, cancel := context.WithCancel(context.Background())
+	asDeadline := src.Bool(1, 3, "ends_as_deadline")
+	if asDeadline {
+		c.Event("deadline_ctx")
+	}
+	ctx, cancel := newEndableCtx(asDeadline)
 	defer cancel()
 	script := procTreeScript(c, kind != "ptrace")
 	exitCode := 1 + src.Int(200, "code")
@@ -259,6 +273,42 @@ func c11KRun(c *vcore.Ctx) *vcore.Violation {
 
 // ---- C12 in world K: no process, zombie, descriptor or goroutine residue over histories of real runs ----
 
+// zombieHeldBySelf tells whether pid is a zombie that waits for this process: "" if not.
+func zombieHeldBySelf(pid int) string {
+	b, err := os.ReadFile(fmt.Sprintf("/proc/%d/status", pid))
+	if err != nil {
+		return ""
+	}
+	var state string
+	ppid, tracer := 0, 0
+	for _, l := range strings.Split(string(b), "\n") {
+		f := strings.Fields(l)
+		if len(f) < 2 {
+			continue
+		}
+		switch f[0] {
+		case "State:":
+			state = f[1]
+		case "PPid:":
+			ppid, _ = strconv.Atoi(f[1])
+		case "TracerPid:":
+			tracer, _ = strconv.Atoi(f[1])
+		}
+	}
+	if state != "Z" {
+		return ""
+	}
+	if ppid == os.Getpid() {
+		return "child of the host process"
+	}
+	if tracer != 0 {
+		if _, err := os.Stat(fmt.Sprintf("/proc/self/task/%d", tracer)); err == nil {
+			return fmt.Sprintf("held by the host's tracing thread %d (parent %d)", tracer, ppid)
+		}
+	}
+	return ""
+}
+
 func childrenOfSelf() []int {
 	return descendantsDirect(os.Getpid())
 }
@@ -326,7 +376,17 @@ func c12KRun(c *vcore.Ctx) *vcore.Violation {
 				shape = "tree_exit"
 			} else {
 				c.Event(shape)
+				// three places where a Build can fail: on the host before the configuration is sent, and inside
+				// the container while it applies the configuration (missing root; bind mount of a missing source)
 				b := container.Builder{Root: filepath.Join(c.Dir, "no-such-root-dir"), TmpRoot: "tmp-*"}
+				switch src.Int(3, "build_failure") {
+				case 1:
+					b = container.Builder{Root: filepath.Join(c.Dir, "no-such-root-dir")}
+				case 2:
+					okRoot, _ := os.MkdirTemp(c.Dir, "c12root")
+					defer os.Remove(okRoot)
+					b = container.Builder{Root: okRoot, Mounts: mount.NewBuilder().WithBind("/nonexistent-verif-source", "m", true).Mounts}
+				}
 				env, err := b.Build()
 				c.Logf("run %d build_fails: Build -> %v", i, err)
 				if err == nil {
@@ -413,11 +473,43 @@ func c12KRun(c *vcore.Ctx) *vcore.Violation {
 		}
 		c.Logf("run %d %s %v: %s exit=%d %q", i, shape, script, statusName(res.Status), res.ExitStatus, res.Error)
 		// host pids the program's processes had (pid namespaces translate: for ptrace runs the reported pids are host pids)
+		if kind == "ptrace" && os.Getenv("VERIF_DEBUG") != "" {
+			ents, _ := os.ReadDir("/proc")
+			var l []string
+			for _, e := range ents {
+				if _, err := strconv.Atoi(e.Name()); err == nil {
+					b, _ := os.ReadFile("/proc/" + e.Name() + "/status")
+					var st, pp, tr string
+					for _, ln := range strings.Split(string(b), "\n") {
+						f := strings.Fields(ln)
+						if len(f) > 1 && f[0] == "State:" {
+							st = f[1]
+						}
+						if len(f) > 1 && f[0] == "PPid:" {
+							pp = f[1]
+						}
+						if len(f) > 1 && f[0] == "TracerPid:" {
+							tr = f[1]
+						}
+					}
+					l = append(l, e.Name()+":"+st+":pp"+pp+":tr"+tr)
+				}
+			}
+			fmt.Fprintf(os.Stderr, "DEBUGPS shape=%s script=%v procs=%v\n", shape, script, l)
+		}
 		if kind == "ptrace" {
+			// every process of the tree announced its pid there as its first action
+			var all []byte
 			buf := make([]byte, 4096)
 			pidR.SetReadDeadline(time.Now().Add(200 * time.Millisecond))
-			nb, _ := pidR.Read(buf)
-			for _, l := range strings.Split(string(buf[:nb]), "\n") {
+			for {
+				nb, err := pidR.Read(buf)
+				all = append(all, buf[:nb]...)
+				if err != nil || nb == 0 {
+					break
+				}
+			}
+			for _, l := range strings.Split(string(all), "\n") {
 				f := strings.Fields(l)
 				if len(f) == 2 && f[0] == "pid" {
 					p, _ := strconv.Atoi(f[1])
@@ -427,6 +519,24 @@ func c12KRun(c *vcore.Ctx) *vcore.Violation {
 					if pidAlive(p) {
 						pidR.Close()
 						return vcore.Violate(prop, "process_survives_run", kind+"/"+shape, "process %d of the program is still alive after the run returned (%s)", p, strings.Join(script, " "))
+					}
+					// dead is not enough: it must not stay behind as a zombie that only the host can release
+					// (its child, or a tracee of one of its threads: the kernel keeps a traced zombie until its
+					// tracer has waited for it, whoever its parent is)
+					if os.Getenv("VERIF_DEBUG") != "" {
+						b, _ := os.ReadFile(fmt.Sprintf("/proc/%d/status", p))
+						fmt.Fprintf(os.Stderr, "DEBUG0 pid %d exists=%v status=%q\n", p, pidExists(p), strings.Join(strings.Fields(string(b)), " "))
+					}
+					for k := 0; k < 300 && pidExists(p); k++ {
+						time.Sleep(5 * time.Millisecond)
+					}
+					if os.Getenv("VERIF_DEBUG") != "" {
+						b, _ := os.ReadFile(fmt.Sprintf("/proc/%d/status", p))
+						fmt.Fprintf(os.Stderr, "DEBUG pid %d exists=%v status=%q\n", p, pidExists(p), strings.Join(strings.Fields(string(b)), " "))
+					}
+					if who := zombieHeldBySelf(p); who != "" {
+						pidR.Close()
+						return vcore.Violate(prop, "zombie_left", kind+"/"+shape, "process %d of the program is left as a zombie %s after the run returned (%s)", p, who, strings.Join(script, " "))
 					}
 				}
 			}
